@@ -34,6 +34,7 @@ import Ymq.Lemmas.CrtEstimate
 import Ymq.Lemmas.CrtColumns
 import Ymq.Lemmas.NttRoots
 import Ymq.Lemmas.NttPipeline
+import Ymq.Lemmas.CrtBound
 import Ymq.Lemmas.PolyDft
 import Ymq.Lemmas.PolyZMod
 import Ymq.Lemmas.PolyMiddle
@@ -637,6 +638,19 @@ theorem ntt_pipeline_spec (n logsize : Nat) (m : Ymq.Crt.Mzp) (hm : Ymq.Crt.new 
           Ymq.Dft.cyc (2 ^ K) (fun t => Ymq.Crt.mfe m (f1.getD (Ymq.Crt.bitrev K t) []) j)
             (fun t => Ymq.Crt.mfe m (f2.getD (Ymq.Crt.bitrev K t) []) j) i :=
   Ymq.Crt.nttPipeline_spec n logsize m hm hK K h1 hk f1 f2 hf1 hf2
+
+/-- **`V < P/2` at the `_crt` call sites of `convolve_modn_ntt`.** For the context built by the model of
+`MultiZmodP::new(zn, logsize)` (`w = (2·bits(n) + logsize)/58 + 1` primes, each above `2^58`: decided on the
+translated table) every integer `V ≤ size·n²` with `size ≤ 2^logsize` — in particular every coefficient
+`Σ_(a+b ≡ i) x_a·y_b` of the cyclic product of two operands with entries `< n` (`assert!(mzp.k >= logsize)`
+in `convolve_modn_ntt`) — satisfies `2V < P`: the hypothesis of `crt_q_estimate` / `crt_spec` holds where
+`redc` is called. -/
+theorem crt_call_bound (n logsize : Nat) (m : Ymq.Crt.Mzp) (hm : Ymq.Crt.new n logsize = some m)
+    (hn : 0 < n) (size V : Nat) (hs : size ≤ 2 ^ logsize) (hV : V ≤ size * (n * n)) :
+    2 * V < m.pprod := by
+  rcases Ymq.Crt.crt_call_bound n logsize m hm size V hs hV with h | h
+  · exact h
+  · omega
 
 end CrtSpecs
 
